@@ -6,8 +6,8 @@ ENV = "GOFLAGS=-mod=mod GOPROXY=off GOSUMDB=off GOTOOLCHAIN=local"
 SETUP = f"cd /verif/engine && {ENV} go build -o /verif/bin/vcheck ./cmd/vcheck"
 BASE_OFF = "for m in $(cat /w/out/gomods.txt); do MF=$(cd /repo/$m && . /w/out/goenv.sh && gomodflag); (cd /repo/$m && go test $MF -json -vet=off -count=1 -timeout 25m ./...); done"
 
-TRUST = ("Trusted base: the VC generator in /verif/engine (unverified; defended by the must-fail corpus in /verif/seeded and "
-         "/verif/selftest), the SMT solvers, the assumed contracts and library abstractions listed in the evidence file "
+TRUST = ("Trusted base: the VC generator in /verif/engine (unverified; defended by the must-fail corpus in /verif/seeded, run with "
+         "tools/seedall.sh), the SMT solvers, the assumed contracts and library abstractions listed in the evidence file "
          "(trusted_base / assumptions), machine integers modelled exactly as bit-vectors. ")
 
 TECH = "contract-based deductive verification: WP/symbolic execution over go/ssa of the real functions + SMT (z3/cvc5)"
